@@ -845,3 +845,10 @@ c01_len_table c01_count_14 c01_count_23 c01_count_25 c01_unpack_12 c12_random c0
 c11_v c11_v_kf_d7 c14_component c15_parse_other_lengths c15_parse_132 c13_numstr_0 c18_prefix_5 c09_int_range c20_domain_1
 c10_digest_symlen c19_filtercap_ascii_8 c13n_bytes_4 c06l_eip1559_symdata c16_account_bad_path
 """.split())
+
+# C11's quick tier runs this subset of the C11-tagged harnesses (the full set repeats most of C06's structure queries and took more
+# than 900 s when run on its own in a fresh sandbox); the thorough tier runs all of them
+C11_QUICK = set("""
+c11_v c11_v_kf_d7 c07_bytes_001 c07_uint c06_legacy_unsigned_chain c06_legacy_signed_chain c06l_eip2930_unsigned c06l_eip1559_unsigned
+c06l_signing_message_legacy_chain
+""".split())
